@@ -136,6 +136,10 @@ static void apply_prehistory(vh_ctx_t * v, size_t bufsize) {
             break;
         case 2: if (bufsize > sizeof pend + 2) { vh_input(v, pend, sizeof pend - 1); vh_input(v, NULL, 0); } break;
         case 3: if (bufsize > 24) { vh_input(v, "Q?;*IDN?\nFOO\n", 13); } break;
+        case 5: /* complete units pending, then the application discards the pending input (device clear) */
+            if (bufsize > sizeof pend + 2) { vh_input(v, pend, sizeof pend - 1); vh_device_clear(v); vh_count("history.pending_units_then_device_clear", 1); } break;
+        case 6: /* complete units pending, then the application installs another input buffer of the same size */
+            if (bufsize > sizeof pend + 2) { vh_input(v, pend, sizeof pend - 1); vh_swap_input_buffer(v, bufsize); vh_count("history.pending_units_then_buffer_swapped", 1); } break;
         case 4: /* overrun on an empty buffer */ { char * big = (char *) malloc(bufsize + 3); memset(big, ';', bufsize + 3); vh_input(v, big, bufsize + 3); free(big); } break;
         default: break;
     }
@@ -204,9 +208,9 @@ static void enforce_caps(const stream_t * s, unsigned char * cuts, size_t bufsiz
 
 static uint64_t p0_count(int thorough) {
 #if VH_ASAN
-    return vh_scaled(thorough ? 30000 : 2000);
+    return vh_scaled(thorough ? 30000 : 1200);
 #else
-    return vh_scaled(thorough ? 300000 : 12000);
+    return vh_scaled(thorough ? 300000 : 6000);
 #endif
 }
 
@@ -214,7 +218,7 @@ static void p0_run(uint64_t idx, vh_rng_t * rng) {
     static stream_t s; static run_t ref, r; static unsigned char cuts[MAXS + 2];
     size_t i, bufsize; int k; const char * what; int small = (idx % 4 == 3);
     if (!sigs[0].nsteps) init_sigs();
-    g_prehistory = (idx % 3 == 1 && !small) ? 1 + (int) vh_below(rng, 4) : 0; /* not in the tight-buffer family: the history itself must not depend on the buffer size */
+    g_prehistory = (idx % 3 == 1 && !small) ? 1 + (int) vh_below(rng, 6) : 0; /* not in the tight-buffer family: the history itself must not depend on the buffer size */
     gen_stream(rng, &s);
     vh_case_desc("stream \"%s\"", vh_esc(s.b, s.n));
     bufsize = s.n + 2;
@@ -278,7 +282,7 @@ static void p0_run(uint64_t idx, vh_rng_t * rng) {
 
 int main(int argc, char ** argv) {
     static const vh_phase_t phases[] = { { "streams", p0_count, p0_run } };
-    vh_decoy_enable(11); vh_require("decoy.messages_run_on_a_second_context"); vh_require("history.pending_units_then_overrun"); vh_require("seg.all_at_once"); vh_require("seg.single_split"); vh_require("seg.random_multiway"); vh_require("stream.terminator_inside_block");
+    vh_decoy_enable(11); vh_require("decoy.messages_run_on_a_second_context"); vh_require("history.pending_units_then_overrun"); vh_require("history.pending_units_then_device_clear"); vh_require("history.pending_units_then_buffer_swapped"); vh_require("seg.all_at_once"); vh_require("seg.single_split"); vh_require("seg.random_multiway"); vh_require("stream.terminator_inside_block");
     vh_require("stream.terminator_inside_string"); vh_require("stream.with_flush_calls"); vh_require("stream.leaves_remainder"); vh_require("stream.produces_output");
     vh_require("stream.raises_errors"); vh_require("family.tight_buffer"); vh_require("stream.longer_than_258_bytes"); vh_require("stream.nondecimal_or_expression_followed_by_string_or_block"); vh_require("stream.expression_with_nested_parentheses_or_strings"); vh_require("stream.longer_than_514_bytes");
     return vh_main(argc, argv, "C08", phases, 1);
